@@ -11,17 +11,7 @@ from ..model import ClassRef
 
 LEVEL = 'other'
 EXPLANATION = (
-    'Static analysis over lang/parsing.py. (R1) exception escape: every explicit `raise` in the parser and its context is '
-    'a ParseError subclass (hierarchy read from errors.py), a bare re-raise inside a ParseError handler, or in the '
-    'reviewed table; every lexical constructor call that can raise ValueError is wrapped in an except-ValueError -> '
-    'ParseError handler or is in the reviewed by-construction-valid table; every _unexp_msg() (which indexes the input) is '
-    'dominated by a has-current check; table lookups context.value(x) are preceded by a type check of x; __exit__ runs '
-    'close(). (R2) every method the parser calls on its predicate store exists on every class the constructor admits, or the '
-    'call is dominated by an isinstance guard. (R3) binding typestate: bind/check_bound/unbind folded over all small states; '
-    'Variable is built only in _read_quantified (bind -> body -> unbind) and _read_parameter (check_bound); predicates take '
-    'exactly their arity. (R4) every while loop of the parser makes progress or exits on each iteration. (R5) effect '
-    'confinement: parser methods write nothing but the fresh ParseContext and predicates.add. Totality over all strings '
-    'and RecursionError behaviour are declined.')
+    "Static analysis of lang/parsing.py. (R6) Both parsers are folded end to end: PolishParser / StandardParser / ParseContext are rebuilt as MRO-bound classes whose methods are the repository's own definitions interpreted by the checker (nothing is imported or run by CPython), over the real parse tables, mock lexical classes with the real construction contracts, and a mutable and a frozen predicate store; on every well-formed sentence up to a size bound, every one-character mutation of those and every short string the outcome is a ParseError or a closed sentence (no free, vacuous or re-bound variable; one arity per predicate symbol), never another exception; the Polish parser agrees with an independent reader of the grammar. (R1) every explicit raise in the parser classes is a ParseError subclass or reviewed; constructor calls are wrapped or have a reviewed shape. (R2) store-API compatibility with an interprocedural isinstance guard. (R3) bind/check_bound/unbind folded over all small states. (R4) every while loop advances or exits. (R5) effect confinement. Decided on a bounded input language; totality over all strings and RecursionError are declined. (R7) the lexical constructors the parsers call are folded (lexfold, shared with C14.R1): their comparison key, which is the key of the shared construction cache, distinguishes every two different specs -- otherwise a later parse gets an earlier, different sentence back.")
 TRUSTED = ['CPython ast', 'sa.minieval', 'errors.py class hierarchy as parsed']
 ASSUMPTIONS = ['lexical constructors raise only ValueError/TypeError for malformed arguments (lang/lex.py not analysed for escapes)']
 
@@ -94,6 +84,31 @@ def run(ctx, rep):
     r3(ctx, rep)
     r4(ctx, rep)
     r5(ctx, rep)
+    r7(ctx, rep)
+
+
+def r7(ctx, rep):
+    """History independence below the parser: the items it builds go through the lexical construction cache, which is keyed by
+    equality.  If a constructor's comparison key leaves out a spec field, two different sentences are one cache entry and a later
+    parse gets the earlier sentence back (lexfold.fold_constructors, shared with C14.R1; cache folds are C14.R4/R5)."""
+    from .. import lexfold
+    m = ctx.m
+    R7 = rep.rule('C13.R7', 'what a parser builds is what it asked for, whatever was built before: every lexical constructor the parsers call is folded '
+                            'and its comparison key (the key of the shared construction cache) distinguishes every two different specs')
+    res, cons = lexfold.fold_constructors(m)
+    rep.consult(*cons)
+    seen = set()
+    n = 0
+    for ok, case, detail in res:
+        n += 1
+        rep.instance(R7, ok=ok, nontrivial=case)
+        if not ok:
+            k = case.split(' on ')[0].split(':')[0]
+            if k in seen:
+                continue
+            seen.add(k)
+            rep.finding(R7, f'C13.R7/constructors/{k}', cons[0].split(' ')[0] if cons else 'pytableaux/lang/lex.py', 'lexical constructors', f'{case}: {detail}')
+    rep.floor('C13.R7', 'constructor cases', n, 100)
 
 
 def r6(ctx, rep):
